@@ -387,6 +387,11 @@ def rule_e(ctx):
             if fn in ("np.maximum", "np.fmax") and len(v.args) == 2:
                 a, b = lb(v.args[0]), lb(v.args[1])
                 return max(a[0], b[0]), a[1] | b[1], a[2] and b[2]
+            if fn == "R" and len(v.args) >= 1 and isinstance(v.args[0], Sym) and (v.args[0].fn in ("np.maximum", "np.fmax", "np.max", "np.amax", "np.maximum.reduce") or
+                                                                               (isinstance(v.args[0].recv, Opaque) and v.args[0].recv.tag == "callable" and v.args[0].attr in ("maximum", "max"))):
+                # the signal reduction applied to a maximum of un-reduced differences: a channel-mixing reduction (grey value, sums of channels)
+                # does not commute with the maximum, so the result need not dominate any single reduced difference -- a known shape, nothing dominated
+                return NEG, set(), True
             if fn in ("np.maximum.reduce", "np.fmax.reduce") and v.args and isinstance(v.args[0], (list, tuple)) and v.kw.get("axis", 0) == 0:
                 parts = [lb(x) for x in v.args[0]]
                 return max(p_[0] for p_ in parts), set().union(*[p_[1] for p_ in parts]), all(p_[2] for p_ in parts)
